@@ -18,7 +18,7 @@ from .validate import Mismatch, pin, run_native, run_pinned, same
 def _cmp(what, native_fn, engine_fn, *args):
     a = run_native(native_fn, *args)
     b = run_pinned(engine_fn, *args)
-    if b[0] == 'engine:Unmodelled':
+    if b[0] == 'engine:Unmodelled' or (b[0] == 'ok' and type(b[1]).__name__ == 'OpaqueStr'):
         return 0          # the model declines (inconclusive by design), never a wrong answer
     if not same(a, b):
         raise Mismatch('%s%r: native %r != engine %r' % (what, args, a, b))
@@ -41,6 +41,20 @@ def seq_methods():
             n += _cmp('replace', lambda x, y: x.replace(y, b'Z'), lambda x, y: lift(x).replace(y, b'Z'), s, sub)
             n += _cmp('rfind', lambda x, y: x.rfind(y), lambda x, y: lift(x).rfind(y), s, sub)
             n += _cmp('partition', lambda x, y: list(x.partition(y)), lambda x, y: list(lift(x).partition(y)), s, sub)
+            for st, en in [(0, None), (1, None), (0, 2), (1, 3), (-2, None), (0, -1), (2, 1), (len(s) + 1, None), (len(s), None), (-9, 9)]:
+                n += _cmp('startswith/se', lambda x, y, a, b: x.startswith(y, a, b), lambda x, y, a, b: bool(lift(x).startswith(y, a, b)), s, sub, st, en)
+                n += _cmp('endswith/se', lambda x, y, a, b: x.endswith(y, a, b), lambda x, y, a, b: bool(lift(x).endswith(y, a, b)), s, sub, st, en)
+                n += _cmp('find/se', lambda x, y, a, b: x.find(y, a, b), lambda x, y, a, b: lift(x).find(y, a, b), s, sub, st, en)
+                n += _cmp('rfind/se', lambda x, y, a, b: x.rfind(y, a, b), lambda x, y, a, b: lift(x).rfind(y, a, b), s, sub, st, en)
+                n += _cmp('count/se', lambda x, y, a, b: x.count(y, a, b), lambda x, y, a, b: lift(x).count(y, a, b), s, sub, st, en)
+            n += _cmp('startswith/tuple', lambda x, y: x.startswith((y, b'\r')), lambda x, y: bool(lift(x).startswith((y, b'\r'))), s, sub)
+            n += _cmp('endswith/tuple', lambda x, y: x.endswith((y, b'\r')), lambda x, y: bool(lift(x).endswith((y, b'\r'))), s, sub)
+        for st, en in [(0, None), (1, None), (0, 2), (len(s) + 1, None), (len(s), None)]:
+            n += _cmp('startswith/empty', lambda x, a, b: x.startswith(b'', a, b), lambda x, a, b: bool(lift(x).startswith(b'', a, b)), s, st, en)
+            n += _cmp('endswith/empty', lambda x, a, b: x.endswith(b'', a, b), lambda x, a, b: bool(lift(x).endswith(b'', a, b)), s, st, en)
+            n += _cmp('find/empty', lambda x, a, b: x.find(b'', a, b), lambda x, a, b: lift(x).find(b'', a, b), s, st, en)
+            n += _cmp('rfind/empty', lambda x, a, b: x.rfind(b'', a, b), lambda x, a, b: lift(x).rfind(b'', a, b), s, st, en)
+            n += _cmp('count/empty', lambda x, a, b: x.count(b'', a, b), lambda x, a, b: lift(x).count(b'', a, b), s, st, en)
         n += _cmp('splitlines', lambda x: x.splitlines(), lambda x: lift(x).splitlines() if len(x) else [], s)
         n += _cmp('splitlinesK', lambda x: x.splitlines(True), lambda x: lift(x).splitlines(True) if len(x) else [], s)
         n += _cmp('rsplit1', lambda x: x.rsplit(b'a', 1), lambda x: lift(x).rsplit(b'a', 1), s)
@@ -59,6 +73,12 @@ def seq_methods():
         n += _cmp('s.find', lambda x: x.find('\n'), lambda x: lift(x).find('\n'), s)
         n += _cmp('s.split', lambda x: x.split('\n'), lambda x: lift(x).split('\n'), s)
         n += _cmp('s.splitlines', lambda x: x.splitlines(True), lambda x: lift(x).splitlines(True) if len(x) else [], s)
+    from .instrument import h_fstr, h_format
+    for s in S:
+        for k in (0, 7, -3):
+            n += _cmp('fstr', lambda x, y: f'a={x!s} b={x} k={y} {y:d}|', lambda x, y: h_fstr(
+                ['a=', (lift(x) if x else x, 's', ''), ' b=', (lift(x) if x else x, None, ''), ' k=', (y, None, ''), ' ', (y, None, 'd'), '|']), s, k)
+            n += _cmp('format', lambda x, y: '{}={!s} {k}{{}}'.format(x, x, k=y), lambda x, y: h_format('{}={!s} {k}{{}}', (lift(x) if x else x, x), {'k': y}), s, k)
     return n
 
 
@@ -103,6 +123,38 @@ def regex_patterns(patterns, corpus):
             n += _cmp('finditer %r' % (real.pattern,), lambda x: [list(m.span()) for m in real.finditer(x)],
                       lambda x: [list(m.span()) for m in (sp_.finditer(lift(x)) if len(x) else sp_.finditer(x))], s)
     return n
+
+
+GENERIC_CORPUS = [b'', b'\n', b'#diffx: version=1.0', b'#diffx: encoding=utf-8, version=1.0\n', b'#.change:', b'#..file:\r\n',
+                  b'#...diff: length=82, line_endings=unix', b'#..meta: format=json, length=100', b'#.preamble: indent=2\n',
+                  b'length=12', b'a=b, c=d', b'a=b,c=d', b'key', b'=v', b'my-option', b'_opt', b'9a', b'a/b_c.d-e', b'x y',
+                  b'@@ -1,2 +3,4 @@', b'@@ -1 +1 @@ ctx', b'@@ -0,0 +1 @@\n', b'@@ -a,b +c,d @@', b'@@@ -1,2 -1,2 +1,3 @@@',
+                  b'--- a/f\n+++ b/f\n', b'\\ No newline at end of file', b' ctx', b'+add', b'-del', b'  indented\n  more\n',
+                  b'   ', b' \n \n', b'\r\n', b'a\r\nb\r\n', b'\xef\xbb\xbfx', b'\xff\xfe#\x00', b'0', b'-12', b'1_0', b'+5',
+                  b'delta 12\n', b'literal 3\n', b'Binary files a and b differ\n', b'#....x:', b'#diffx:', b'#diffx::', b'.preamble']
+
+
+def loaded_patterns(prefix='pydiffx'):
+    """every compiled pattern (SPattern) that the instrumented modules of the package hold at module or class level
+    in the *current* source -- found by reflection, not by name"""
+    out = []
+    seen = set()
+    for name, mod in list(sys.modules.items()):
+        if mod is None or not (name == prefix or name.startswith(prefix + '.')) or '.tests' in name:
+            continue
+        holders = [mod] + [v for v in vars(mod).values() if isinstance(v, type) and getattr(v, '__module__', None) == name]
+        for h in holders:
+            for k, v in list(vars(h).items()):
+                if isinstance(v, SPattern) and id(v) not in seen:
+                    seen.add(id(v))
+                    out.append(v.real)
+    return out
+
+
+def validate_loaded_patterns(prefix='pydiffx'):
+    pats = loaded_patterns(prefix)
+    corpus = GENERIC_CORPUS + [x.decode('latin-1') for x in GENERIC_CORPUS]
+    return regex_patterns(pats, corpus)
 
 
 def all_strings(alphabet, maxlen, kind=bytes):
